@@ -47,7 +47,7 @@ def register(PROPS, HARNESS_PKGS):
             "header lines Go's HTTP client writes for its own hop (Host, Content-Length, Transfer-Encoding: chunked, "
             "User-Agent, Accept-Encoding) and olla's self-identification (X-Proxied-By, X-Model) are not 'client "
             "headers that arrive'",
-            "hop-by-hop = the fixed list of the property; a header the client nominates in Connection is left unconstrained",
+            "hop-by-hop = the fixed list of the property plus whatever the client's Connection lines nominate (RFC 7230 6.1)",
             "a field's value list is its comma-separated elements over all of its lines (RFC 9110 5.3); field names "
             "compare case-insensitively",
         ],
